@@ -87,6 +87,17 @@ def run(ck, F):
                    '(word.data(), word.length()): every byte of the request, embedded NULs included, and no other', floor=1)
     import c03 as _c03
     _c03.one_pool(ck, F, 'C04')
+    # names recognise a reserved spelling by the identity of the String it is interned as: a reserved spelling must come out of the
+    # pool as the reserved-word node, whatever it looks like (the table also holds `C`, `C++`, `...` and `=0`)
+    import words as _words2
+    R_ri = ck.rule('C04.reserved-spellings-interned', 'string_pool::intern answers every row of the reserved-word table with the reserved-word '
+                   'node: each path that creates a dynamic String follows a failed search of the table or is taken for no row (guards '
+                   'evaluated row by row) -- otherwise get_linkage(get_string("C")) builds a second "C" linkage', floor=1)
+    _fi = F.intern_fn()
+    _rts = _words2.spelling_routes(F, _fi['id'], lambda fid: F.fn.get(fid) is None or F.fn[fid]['name'] in ('word_if_known', 'make_string'))
+    _bad = [(w_, [x_.decode('utf-8', 'replace') for x_ in ps_[:4]]) for w_, ps_, _s in _rts if ps_]
+    ck.check(R_ri, 'intern(word)', bool(_rts) and not _bad, f'{_fi["id"]}: the reserved spelling(s) {[b_[1] for b_ in _bad]} get a second, dynamic String',
+             loc=_fi['loc'], fn=_fi['id'])
     import arena as _arena
     for inst_, ok_, msg_, loc_, fid_ in _arena.owned_bytes(F):
         ck.check(R_sc, inst_, ok_, msg_ + ' -- two different spellings can then be one Identifier / Logogram, or one spelling two', loc=loc_, fn=fid_)
